@@ -5,6 +5,8 @@
 #       re-introduced by reverse-applying its fix commit to a scratch worktree of /repo;
 #   (b) each seeded change under seeded/ listed in seeded/EXPECTED.txt as detected.
 # Worktrees live under /tmp and are removed afterwards. Exit 0 iff every expected alarm is raised.
+# ONLY="C09 C12" restricts the run to the entries of those properties (after a change that
+# cannot affect the others, e.g. contracts of one package).
 cd /verif
 W=/tmp/selftest.$$
 git -C /repo worktree add -q --detach $W HEAD || exit 2
@@ -14,6 +16,7 @@ reset() { (cd $W && git checkout -q -- . && git clean -fdq); }
 echo "== (a) reverted fixes"
 grep '^fixed:' known-findings.txt | while read -r _ p c rest; do
   prop=${p#property=}
+  if [ -n "${ONLY:-}" ]; then case " $ONLY " in *" $prop "*) ;; *) continue;; esac; fi
   reset
   if ! (cd $W && git show $c -- . ':!*contracts*_verif.go' | git apply -R 2>/dev/null); then
     echo "revert $c ($prop): does not apply any more (later change to the same lines) - skipped"; continue
@@ -29,6 +32,7 @@ echo "== (b) seeded changes expected to be detected"
 for name in $(cat seeded/EXPECTED.txt 2>/dev/null | grep -v '^#'); do
   d=seeded/$name; id=${name%-*}
   prop=$(python3 -c "import json;print(json.load(open('$d/meta.json')).get('check_with', '$id'))")
+  if [ -n "${ONLY:-}" ]; then case " $ONLY " in *" $prop "*) ;; *) continue;; esac; fi
   patch=$d/patch.diff; [ -f $d/patch.adapted.diff ] && patch=$d/patch.adapted.diff
   reset
   (cd $W && git apply "/verif/$patch") 2>/dev/null || { echo "$name: patch does not apply"; echo x >> $W.fail; continue; }
